@@ -82,8 +82,18 @@ def build(rng, kind, order):
         prog.append(["sig", "srst", ["c", rng.choice([">", "<"]), ["v", "b"], ["n", cb]]])
         set_e, reset_e = ["v", "sset"], ["v", "srst"]
         edges = {"a": [ca - 1, ca, ca + 1], "b": [cb - 1, cb, cb + 1]}
-    vk = rng.choice(["one", "one", "const", "signal"])
-    if vk == "one":
+    vk = rng.choice(["one", "one", "const", "signal", "computed_dup"])
+    if vk == "computed_dup":
+        # the value is an anonymous expression that also occurs earlier under a name (shared by CSE)
+        import copy as _copy
+        prog.append(["input", "va", types.fresh(), rng.choice([3, 7, 20])])
+        prog.append(["input", "vb", types.fresh(), rng.choice([2, 5, 22])])
+        edges["va"] = [3, 7, 20, 1]
+        edges["vb"] = [2, 5, 22, 1]
+        vexpr = ["p", ["b", "+", ["v", "va"], ["v", "vb"]], t_mem]
+        prog.append(["sig", "total", _copy.deepcopy(vexpr)])
+        val = vexpr
+    elif vk == "one":
         val = ["n", 1]
     elif vk == "const":
         val = ["n", rng.choice([2, 5, 100, -3, -1, 255])]
